@@ -325,6 +325,12 @@ fn first_zeros_aligned(v: u64, order: usize) -> Option<(u64, usize)> {
     }
 }
 
+/// Public entry point to the row search for verification harnesses
+#[cfg(feature = "verif")]
+pub fn first_zeros_aligned_pub(v: u64, order: usize) -> Option<(u64, usize)> {
+    first_zeros_aligned(v, order)
+}
+
 #[cfg(test)]
 mod test {
     use crate::HUGE_ORDER;
